@@ -26,6 +26,16 @@ CHECKS = {
         "Trusted: the translator (validated every run against the running re engine on >10^4 (string, position) pairs incl. the test-suite's token texts), z3.",
         "DESIGN.md 3/C07",
     ),
+    "C16": (
+        "model_checking",
+        "regex -> z3 compilation (E-RX) of the built PLY lexer + user-defined-literal fusion; z3 chooses token classes, texts and split points such that the real tokfmt's output re-lexes differently; blocking clauses enumerate all fusing class tuples; every model replayed on LexerTokenStream + tokfmt",
+        "For all code-point strings inside the bound z3 decides whether 2..5 stream tokens exist whose formatted concatenation lexes back to a different "
+        "(type, text) list; unsat after blocking = the listed class tuples are the complete set of failures inside the bound. The space decision is tabulated "
+        "from the real tokfmt (22,500 pairs, 12,000 triples) each run, so a change to the table, the threshold or the loop changes the encoding.",
+        "Bound: quick 2 tokens <=4 code points and 3 tokens <=3; thorough 2 tokens <=6, 3 tokens <=5, 4 tokens <=4, 5 tokens <=5. Known findings (D2 families) are matched by class tuple "
+        "and still replayed. Trusted: translator (validated every run), z3.",
+        "DESIGN.md 3/C16",
+    ),
 }
 
 NOT_YET = "no check landed yet in this build (planned engine and bounds: DESIGN.md section 3); not claimed until the check runs green"
